@@ -162,6 +162,8 @@ fn pick_target(world: &WorldRef, want: u32, believed: &mut Option<u32>) -> Optio
         cur.cfg.raft.read_consistency.allow_client_override,
         Some(cur.watch_registry.clone()),
     );
+    // applications hand clones of the client to their tasks: every other operation goes through a clone
+    let embedded = if crate::oracle::current_event_seq() % 2 == 1 { embedded.clone() } else { embedded };
     Some(Target {
         node: id,
         inc: cur.inc,
